@@ -1107,6 +1107,48 @@ def c14_transport(ctx, res):
     res.samples.append({"transport_script": scripts[0]})
 
 
+# ------------------------------------------------------------------ C10 (L2: stepping scripts through the real readers)
+
+def c10_cli(ctx, res):
+    """Stepping scripts at the CLI, delivered by --command, on standard input with and without a final
+    newline, and split: the last command counts like every other one. The register dumps printed by
+    the scripts are known (fixed program), and every delivery prints the same."""
+    d = _dir(ctx, "c10")
+    _write(os.path.join(d, "loop.asm"), "and r1 r1 #0\nlp add r1 r1 #1\nadd r2 r1 #-5\nbrn lp\njsr f\nhalt\nf add r3 r3 #7\nret\n")
+    # (script, expected PC and R1 after it, as printed by the final `registers`)
+    scripts = [(["step into 3", "registers"], "x3003", "x0001"),
+               (["si 4", "step", "registers"], "x3002", "x0002"),
+               (["break add x3004", "continue", "step", "registers"], "x3005", "x0005"),
+               (["break add x3006", "continue", "step into", "step into", "registers"], "x3005", "x0005"),
+               (["step into X10", "registers"], "x3004", "x0005"),
+               (["break add lp+3", "continue", "registers"], "x3004", "x0005")]
+    for si, (cmds, pc, r1) in enumerate(scripts):
+        outs = {}
+        for via in ("arg", "stdin", "stdin+nl", "split"):
+            args = ["debug", "loop.asm", "--minimal"]
+            stdin = b""
+            if via == "arg":
+                args += ["--command", ";".join(cmds)]
+            elif via == "split":
+                args += ["--command", cmds[0]]
+                stdin = "\n".join(cmds[1:]).encode()
+            else:
+                stdin = "\n".join(cmds).encode() + (b"\n" if via == "stdin+nl" else b"")
+            r = lace(ctx, args, stdin=stdin, cwd=d, timeout=30)
+            res.evaluations += 1
+            res.cls("l2:stepping_script_via:" + via)
+            text = r.err.decode("utf-8", "replace")
+            got_pc = re.findall(r"^PC (x[0-9a-f]{4})", text, re.M)
+            got_r1 = re.findall(r"^R1 (x[0-9a-f]{4})", text, re.M)
+            detail = dict(r.brief(), script=cmds, delivery=via, expected={"PC": pc, "R1": r1})
+            if r.rc is None or r.crashed:
+                res.violate("C10/cli/crash", "`lace debug` crashed or hung (exit %s)" % r.rc, detail)
+            elif not got_pc or got_pc[-1] != pc or got_r1[-1] != r1:
+                res.violate("C10/cli/wrong-pause", "script %r delivered as %s leaves PC %s R1 %s at its final `registers`; the reference machine is at PC %s with R1 %s"
+                            % (cmds, via, got_pc[-1:] or None, got_r1[-1:] or None, pc, r1), detail)
+    res.require(["l2:stepping_script_via:arg", "l2:stepping_script_via:stdin", "l2:stepping_script_via:split"], "L2")
+
+
 # ------------------------------------------------------------------ C15 (L2: eval through both readers)
 
 def c15_cli(ctx, res):
@@ -1525,7 +1567,26 @@ def c09_cli(ctx, res, limit):
             res.violate("C09/cli/exit-status", "exit status %s under the debugger, %s without" % (dbg.rc, plain.rc), detail)
         elif dbg.out != plain.out:
             res.violate("C09/cli/stdout", "program output differs between `lace debug` and `lace run`", detail)
-    res.require(["l2:debug_vs_run", "l2:debug_vs_run_with_program_input", "l2:script_and_program_input_share_stdin", "l2:program_input_read_under_the_debugger"], "L2")
+    # directed: a program whose own output holds terminal control bytes (ESC, CSI, BEL), in both
+    # output modes, script by --command and on standard input: byte-identical program output
+    _write(os.path.join(d, "esc.asm"), "lea r0 s\nputs\nld r0 e\nout\nhalt\ne .fill x1b\ns .stringz \"a\x1b[2Jb\x1b[1mc\x07d\x1b\"\n")
+    for mode in ([], ["--minimal"]):
+        plain = lace(ctx, ["run", "esc.asm"] + mode, cwd=d, stdin=b"")
+        for how in ("arg", "stdin", "none"):
+            args = ["debug", "esc.asm"] + mode
+            stdin = b""
+            if how == "arg":
+                args += ["--command", "step;registers;continue"]
+            elif how == "stdin":
+                stdin = b"step\nregisters\ncontinue\n"
+            dbg = lace(ctx, args, cwd=d, stdin=stdin)
+            res.evaluations += 1
+            res.cls("l2:program_prints_control_bytes")
+            if (dbg.rc, dbg.out) != (plain.rc, plain.out):
+                res.violate("C09/cli/stdout" if dbg.rc == plain.rc else "C09/cli/exit-status",
+                            "a program printing ESC/CSI/BEL: output or exit status differ between `lace run%s` and `lace debug%s` (script: %s)"
+                            % (" --minimal" if mode else "", " --minimal" if mode else "", how), {"plain": plain.brief(), "debugged": dbg.brief()})
+    res.require(["l2:debug_vs_run", "l2:debug_vs_run_with_program_input", "l2:program_prints_control_bytes", "l2:script_and_program_input_share_stdin", "l2:program_input_read_under_the_debugger"], "L2")
 
 
 # ------------------------------------------------------------------ C05 (L2 sample)
